@@ -5,7 +5,8 @@ import numpy as np
 
 from harness import circgen as cg, logicsim_corr as lc, simcheck as sk, wavecheck as wk, wavesim_corr as wc, map_oracle as mo
 
-THEOREMS = ['C07_levels_valid', 'C07_any_order_in_level', 'C07_threads_once', 'C07_build_ops_ssa', 'C07_build_levels_valid']
+THEOREMS = ['C07_levels_valid', 'C07_any_order_in_level', 'C07_threads_once', 'C07_build_ops_ssa', 'C07_build_levels_valid',
+            'C07_build_stems_defined', 'C07_stems_are_chain_heads', 'C07_build_ops_ssa_strip', 'C07_build_levels_valid_strip', 'C07_build_sched_cert']
 
 
 def permute_levels(sim, rng):
@@ -131,6 +132,15 @@ def run(ck):
         c, a = cg.gen_circuit(rng)
         certs.append((c, rng.random() < 0.6, rng.random() < 0.5))
     sc.run_certs(ck, certs, 'schedule')
+    # the hypotheses of C07_build_ops_ssa(_strip) / C07_build_levels_valid(_strip) hold for the generated circuits
+    hyp = [f'(wf_netlist_b {cg.coq_netlist(c)} && acyclic_b {cg.coq_netlist(c)} && '
+           f'match build_stems {cg.coq_netlist(c)} true ({len(c.lines)} + 3 + 2 * {len(c.s_nodes)}) with Some _ => true | None => false end)'
+           for c, _, _ in certs]
+    okh, outh = ck.coq_eval('hyp', sc.HEADER.replace('Model.Corr.', 'Model.Corr Proofs.WfCheck.') +
+                            'Definition results : list bool := [\n ' + ';\n '.join(hyp) + '].\nEval vm_compute in (failing results).\n')
+    idxh = cg.parse_nat_list(outh) if okh else None
+    ck.obligation(f'hypotheses of the schedule theorems (wf_netlist, comb_acyclic by the proved-sound checkers; build_stems defined) '
+                  f'hold on {len(hyp)} generated circuits', idxh == [], 'correspondence', '' if idxh == [] else outh[-400:])
     for i in range(ck.scale(40, 1200)):
         try:
             desc, what = logic_perm(rng, nrng)
@@ -160,8 +170,9 @@ def run(ck):
             'random thread order (assign, eval, capture kernels); independent schedule checker (operands produced in earlier levels, '
             'released memory not handed out in the same level)')
     ck.trust('the theorems are about the Gallina transcription of the levelisation (Model/SimOps.v levelize/split_levels) and the '
-             'line-level op semantics (Model/AllocCheck.v); that SimOps.build always emits an op list in single-assignment topological '
-             'form (ssa_topo) is checked per generated circuit by the certificate, not yet proved for all circuits; an interleaving '
+             'line-level op semantics (Model/AllocCheck.v); that SimOps.build emits an op list in single-assignment topological form '
+             '(ssa_topo) is a theorem for every well-formed acyclic netlist, with and without fork stripping (C07_build_ops_ssa, '
+             'C07_build_ops_ssa_strip), and is additionally evaluated per generated circuit by the certificate; an interleaving '
              'semantics below kernel-instance granularity is not modelled, and the mock launcher cannot exhibit it')
     for desc, what in fails[:5]:
         ck.fail('schedule:' + desc.get('kind', '?'), what, {'component': 'SimOps levels / level_eval / MockCuda launcher', 'input': desc, 'actual': what})
